@@ -169,8 +169,16 @@ CHECKS = {
             'order, position of minmax(), 1-3 phases ending in solve / do_math(primal) / do_math(dual) / repeated solve, further st() '
             'and a new dvar() after a solve, shared expression and set objects), of dro models (constraints added after solve / '
             'do_math) and of models made only of exp-cone-family constraints (a cut added after a solve must not be lost). The '
-            'optimum of the dual program returned by do_math(primal=False) is checked as well (stale dual cache). Sampling, not proof.',
-            'History generation is a drawn schedule over a fixed model IR (replayable JSON) rather than a Hypothesis RuleBasedStateMachine; '
+            'optimum of the dual program returned by do_math(primal=False) is checked as well (stale dual cache). A quarter of the cases are '
+            'free-form API histories (vf/opseq.py): a declared model with several decision / random / decision-rule arrays, sets that cover '
+            'only some random arrays, stored expression objects finished later, and a schedule drawn state-machine style as a random linear '
+            'extension of the dependency order of the single calls (dvar, rvar, ldr, each adapt, set objects, expression objects, forall, st, '
+            'objective) with formulation calls through three interfaces in between; after every formulation call the optimum must equal that '
+            'of the model declared so far, computed by cutting planes with closed-form support functions (nothing of RSOME involved), and the '
+            'decision-rule coefficient pattern must be NaN exactly where no dependence was declared. A late variable is an integer in half of '
+            'the LP histories. Sampling, not proof.',
+            'Histories are drawn schedules / linear extensions over a replayable JSON IR (generated state-machine style inside one composite '
+            'strategy, so the whole history shrinks and replays as one value) rather than a Hypothesis RuleBasedStateMachine; '
             'a leak that affects the history and the from-scratch build identically is only caught by the absolute oracle, which needs '
             'sets with an exact maximiser.',
             'DESIGN.md section 4 / C09'),
